@@ -122,6 +122,16 @@ KINDS = {
 
 
 def r1_passes(rep, facts, rid='C17/R1'):
+    # decided first on what Serialize for Value writes for a table with one entry of every kind (evaluated); the reading of the three loops below
+    # is the fallback when the function cannot be evaluated
+    from .rules_c13 import r7_value_passes
+    before = len(rep.violations)
+    r7_value_passes(rep, facts, rid=rid)
+    fresh = [v for v in rep.violations[before:] if v['kind'] == 'analysis-incomplete' and v['rule'] == rid]
+    if not fresh:
+        return
+    rep.violations[:] = [v for v in rep.violations if v not in fresh]
+    rep.rules.pop(rid, None)
     R = rep.rule(rid, 'the three emission passes of Serialize for toml::Value partition the entries: for every kind of value (scalar, empty / plain / '
                  'nested / table / mixed arrays, table) exactly one loop predicate holds, in the order values, arrays containing tables, tables', floor=9)
     d = facts.method('serde::ser::Serialize', 'toml::value::Value', 'serialize')
